@@ -8,6 +8,8 @@ import (
 
 	"golang.org/x/tools/go/ssa"
 
+	"verif/sa/internal/e2own"
+	"verif/sa/internal/e9pos"
 	"verif/sa/internal/load"
 	"verif/sa/internal/oblig"
 )
@@ -27,6 +29,33 @@ func NewCtx(r *oblig.Report) *Ctx {
 	}
 	r.Analysed["packages"] = len(p.Pkgs)
 	return &Ctx{P: p, R: r}
+}
+
+// noPackageState (R2.2) is a clause of every property that describes a result as a function of the input: no repository
+// function reachable from the property's entry points writes package-level state outside initialisers (a cache, a pool,
+// a memo table, a lazily filled index). With such state a result can depend on, or be overwritten by, another call.
+func noPackageState(p *load.Prog, r *oblig.Report, fs []*ssa.Function) {
+	r.Rule("R2.2", "universe", "no function reachable from the property's entry points writes package-level state outside initialisers (no cache, pool or memo shared between calls)", 0)
+	e2own.Globals(p, r, "R2.2", fs)
+}
+
+// prePassClauses runs the pre-pass rule (R9.1) and keeps the clauses that matter for the property at hand: the rule
+// decides seven things about ParseDSL's comment/blank pre-pass, and a property that only needs "every line reaches the
+// parser at its own line number" must not raise an alarm because, say, the comment marker changed. Undecided records
+// (anchors that no longer resolve) are always kept. keep lists construct names without the "prepass:" prefix.
+func prePassClauses(p *load.Prog, r *oblig.Report, rule string, keep ...string) *e9pos.PrePass {
+	scratch := oblig.New("scratch", "other", r.Tier)
+	pp := e9pos.PrePassShape(p, scratch, rule)
+	want := map[string]bool{}
+	for _, k := range keep {
+		want["prepass:"+k] = true
+	}
+	for _, rec := range scratch.Records {
+		if want[rec.Construct] || rec.Status == oblig.Undecided {
+			r.Add(rec)
+		}
+	}
+	return pp
 }
 
 // Entry resolves "pkg.Func" or "pkg.Type.Method"; a missing entry point is an unresolved anchor.
